@@ -305,8 +305,8 @@ func genC12Mal(encs []string) func(t *rapid.T) c12Mal {
 	return func(t *rapid.T) c12Mal {
 		in := genC12Input(8192)(t)
 		return c12Mal{In: in, Enc: rapid.SampledFrom(encs).Draw(t, "enc"),
-			Kind: rapid.SampledFrom([]string{"trunc", "trunc", "flip", "flip", "splice", "hostile", "random"}).Draw(t, "kind"),
-			Pos:  rapid.IntRange(0, 1<<16).Draw(t, "pos"), N: rapid.IntRange(1, 6).Draw(t, "n")}
+			Kind: rapid.SampledFrom([]string{"trunc", "trunc", "flip", "flip", "splice", "hostile", "hostile", "random"}).Draw(t, "kind"),
+			Pos:  rapid.IntRange(0, 1<<16).Draw(t, "pos"), N: rapid.IntRange(0, 7).Draw(t, "n")}
 	}
 }
 
@@ -337,7 +337,7 @@ func (m c12Mal) bytes() []byte {
 			b = b[:m.Pos%len(b)]
 		}
 	case "flip":
-		for i := 0; i < m.N && len(b) > 0; i++ {
+		for i := 0; i < max(m.N, 1) && len(b) > 0; i++ {
 			b[(m.Pos+int(next()))%len(b)] ^= 1 << (next() % 8)
 		}
 	case "splice":
@@ -346,12 +346,64 @@ func (m c12Mal) bytes() []byte {
 			b = append(append([]byte{}, b[c:]...), b[:c]...)
 		}
 	case "hostile":
-		// hostile length prefixes: snappy varint / zstd frame content size / lz4 long lengths
+		// hostile length fields: snappy varint / zstd frame content size / gzip ISIZE / lz4 long lengths
+		consts := []uint64{0, 1, 0x7f, 0x80, 0xff, 0xffff, 1 << 20, 0x7fffffff, 0x80000000, 0xffffffff, 1 << 32, 1 << 40, 1 << 62, 1<<63 - 1, 1 << 63, 1<<63 + 1, ^uint64(0), uint64(len(data)) + 1}
+		pick := consts[m.Pos%len(consts)]
 		switch m.Enc {
 		case "snz":
-			b = append(binary.AppendUvarint(nil, uint64(1<<uint(10+m.N*3))), b...)
+			if m.N%2 == 0 {
+				b = append(binary.AppendUvarint(nil, uint64(1<<uint(10+m.N*3))), b...)
+			} else {
+				// replace the declared length
+				_, n := binary.Uvarint(b)
+				if n > 0 {
+					b = append(binary.AppendUvarint(nil, pick), b[n:]...)
+				}
+			}
 		case "lz4":
-			b = append([]byte{0xff, 255, 255, 255, 255, 255, 7}, b...)
+			pre := []byte{0xff}
+			for i := 0; i < m.N*2; i++ {
+				pre = append(pre, 255)
+			}
+			b = append(append(pre, byte(pick)), b...)
+		case "zst":
+			// a new frame header in front of the blocks of the valid frame: every layout of the
+			// descriptor (content-size field of 1, 2, 4 or 8 bytes, single segment or a window
+			// descriptor) with a hostile declared size
+			if hl := zstHeaderLen(b); hl > 0 && hl <= len(b) {
+				fcsFlag := byte(m.N % 4)
+				single := m.N >= 4 || fcsFlag == 0 && m.Pos%2 == 0
+				d := fcsFlag << 6
+				if single {
+					d |= 0x20
+				}
+				h := []byte{0x28, 0xb5, 0x2f, 0xfd, d}
+				if !single {
+					h = append(h, byte(m.Pos>>4)&0xf8|byte(m.Pos&7))
+				}
+				switch fcsFlag {
+				case 0:
+					if single {
+						h = append(h, byte(pick))
+					}
+				case 1:
+					h = binary.LittleEndian.AppendUint16(h, uint16(pick))
+				case 2:
+					h = binary.LittleEndian.AppendUint32(h, uint32(pick))
+				case 3:
+					h = binary.LittleEndian.AppendUint64(h, pick)
+				}
+				b = append(h, b[hl:]...)
+			}
+		case "gzip":
+			// ISIZE (and with it the trailer) of the member
+			if len(b) >= 8 {
+				binary.LittleEndian.PutUint32(b[len(b)-4:], uint32(pick))
+				if m.N%2 == 0 {
+					// a second member follows, so the first trailer is not at the end
+					b = append(b, refGzip(data, 1)...)
+				}
+			}
 		default:
 			if len(b) > 8 {
 				for i := 4; i < 8; i++ {
@@ -368,12 +420,41 @@ func (m c12Mal) bytes() []byte {
 	return b
 }
 
-// declaredSize: the decoded size a snappy block / zstd frame announces up front
+// zstHeaderLen: the length of the frame header of a zstd frame (0 when b is not one)
+func zstHeaderLen(b []byte) int {
+	if len(b) < 6 || binary.LittleEndian.Uint32(b) != 0xFD2FB528 {
+		return 0
+	}
+	d := b[4]
+	pos := 5
+	if d&0x20 == 0 {
+		pos++
+	}
+	pos += []int{0, 1, 2, 4}[d&3]
+	switch d >> 6 {
+	case 0:
+		if d&0x20 != 0 {
+			pos++
+		}
+	case 1:
+		pos += 2
+	case 2:
+		pos += 4
+	case 3:
+		pos += 8
+	}
+	return pos
+}
+
+// declaredTooBig: the decoded size a snappy block / zstd frame announces up front is one the
+// decoder library allocates before it looks at the data (a memory cost of the run, not a
+// panic or a hang). Sizes the libraries refuse outright (snappy above 4 GiB, zstd from
+// 1 GiB) cost nothing and stay in.
 func declaredTooBig(enc string, b []byte) bool {
 	switch enc {
 	case "snz":
 		v, n := binary.Uvarint(b)
-		return n > 0 && v > 16<<20
+		return n > 0 && v > 16<<20 && v <= 0xffffffff
 	case "zst":
 		// frame header: magic(4) descriptor(1) [window(1)] [dict] [content size]
 		if len(b) < 6 || binary.LittleEndian.Uint32(b) != 0xFD2FB528 {
@@ -385,7 +466,7 @@ func declaredTooBig(enc string, b []byte) bool {
 		pos := 5
 		if !single {
 			// window descriptor: exponent in the top 5 bits
-			if b[5]>>3 > 14 { // window > 16 MiB
+			if e := b[5] >> 3; e > 14 && e <= 20 { // window above 16 MiB; above 1 GiB it is refused
 				return true
 			}
 			pos++
@@ -417,7 +498,7 @@ func declaredTooBig(enc string, b []byte) bool {
 				size = binary.LittleEndian.Uint64(b[pos:])
 			}
 		}
-		return size > 16<<20
+		return size > 16<<20 && size < 1<<30
 	}
 	return false
 }
